@@ -96,7 +96,7 @@ pub fn run(a: &Args) -> i32 {
     let mut rep = Report::new(
         "C13",
         a,
-        "every type expression with list depth <= 4 (62 shapes: all placements of `!`) x 9 named kinds x positions {response field, variable, input field, @oneOf member} x {SDL, introspection JSON}; a case is one (shape, kind, position, format) whose emitted Rust type was read with syn and compared with the rule; non-trivial = at least one list level or a non-null marker",
+        "every type expression with list depth <= 4 (62 shapes: all placements of `!`) x 9 named kinds x positions {response field, variable, input field, @oneOf member} x {SDL, introspection JSON} x {plain, default values on input fields, normalization rust}; a case is one (shape, kind, position, format) whose emitted Rust type was read with syn and compared with the rule; non-trivial = at least one list level or a non-null marker",
     );
     let shapes = ATy::all_shapes("BASE", 4);
     let mut ctx = CaseCtx::new();
@@ -104,14 +104,15 @@ pub fn run(a: &Args) -> i32 {
     for kind in KINDS.iter() {
         let schema = build_schema(&shapes, kind);
         let query = build_query(&shapes, kind);
-        for is_json in [false, true] {
-            let fmt = if is_json { "json" } else { "sdl" };
-            let text = if is_json {
-                serde_json::to_string_pretty(&schema.to_json(&RenderKnobs::default())).unwrap()
-            } else {
-                schema.to_sdl(&RenderKnobs::default())
-            };
-            let opts = Opts::harness();
+        // the rule must not depend on the schema format, on default values written on input fields, or on the
+        // normalization option (the kinds used here keep their names under Rust normalization)
+        for (is_json, variant) in [(false, "plain"), (true, "plain"), (false, "input-defaults"), (true, "input-defaults"), (false, "normalization-rust"), (true, "normalization-rust")] {
+            let fmt_owned = format!("{}{}", if is_json { "json" } else { "sdl" }, if variant == "plain" { String::new() } else { format!("+{}", variant) });
+            let fmt = fmt_owned.as_str();
+            let knobs = RenderKnobs { input_defaults: variant == "input-defaults", ..RenderKnobs::default() };
+            let text = if is_json { serde_json::to_string_pretty(&schema.to_json(&knobs)).unwrap() } else { schema.to_sdl(&knobs) };
+            let mut opts = Opts::harness();
+            opts.normalization_rust = variant == "normalization-rust";
             let res = ctx.run(&text, is_json, &query, &opts);
             if !res.diffs.is_empty() {
                 rep.disagree(json!({"kind": kind.gql, "format": fmt, "diffs": res.diffs.iter().take(6).collect::<Vec<_>>()}));
